@@ -37,6 +37,7 @@ type session struct {
 	io       *ioLog
 	df       *dfSession
 	ixs      *ixSession
+	fios     map[string]*fioFile
 }
 
 func newSession(base string) *session {
@@ -271,6 +272,9 @@ func (s *session) exec(line string) (res string) {
 	}
 	if strings.HasPrefix(op, "ix.") || strings.HasPrefix(op, "ixit.") {
 		return s.execIX(op, a)
+	}
+	if strings.HasPrefix(op, "fio.") {
+		return s.execFio(op, a)
 	}
 	if strings.HasPrefix(op, "dt.") {
 		return s.execDT(op, a)
